@@ -5,6 +5,9 @@ import "bufio"
 // unitDispatch runs a UNIT engine; returns false if the name is unknown.
 func unitDispatch(name string, args []string, out *bufio.Writer) bool {
 	switch name {
+	case "unit-sketch":
+		unitSketch(args, out)
+		return true
 	}
 	return false
 }
